@@ -4,6 +4,10 @@ import VecModel.Model.BPE
 import VecModel.Model.Distances
 import VecModel.Model.Ngram
 import VecModel.Model.Window
+import VecModel.Model.Coo
+import VecModel.Model.EM
+import VecModel.Model.LZ
+import VecModel.Model.Skipgram
 open Lean VecModel
 namespace Driver.Twin
 
@@ -97,6 +101,520 @@ def cartesian : List (List Py.Val) → List (List Py.Val)
   | xs :: rest => let tails := cartesian rest
     xs.flatMap fun x => tails.map fun t => x :: t
 
+/-! ## helpers of the model-vs-twin ops added for C04 / C11 / C16 / C09 / C06
+
+A twin whose kernel is missing from `Gen.available` (syntax outside the translator's subset) or that runs into
+an idiom the interpreter does not model (`Err.isUnsupported`) makes the op answer `{"bad": "twin unavailable …"}`,
+which the harness records and does not count as a disagreement. -/
+
+def needFns (fns : List String) : R Unit :=
+  fns.forM fun f =>
+    if Gen.available.contains f then pure ()
+    else match Gen.unavailable.find? (·.1 == f) with
+      | some (_, why) => throw s!"twin unavailable: {f}: {why}"
+      | none => throw s!"twin unavailable: {f}: not translated"
+
+def guardUnsupported (fn : String) : Except Err α → R Unit
+  | .error e => if e.isUnsupported then throw s!"twin unavailable: {fn}: {e}" else pure ()
+  | .ok _ => pure ()
+
+def isMemErr : Err → Bool
+  | .oob .. | .unbound _ => true
+  | _ => false
+
+def valInt? : Py.Val → Option Int
+  | .int i => some i
+  | .bool b => some (if b then 1 else 0)
+  | .rat q => if q.den == 1 then some q.num else none
+  | _ => none
+
+def valRat? : Py.Val → Option Rat
+  | .int i => some i
+  | .bool b => some (if b then 1 else 0)
+  | .rat q => some q
+  | _ => none
+
+def twinResJson : Except Err (Py.Val × Py.Env) → Json
+  | .ok (v, _) => ofVal v
+  | .error e => Json.str (toString e)
+
+structure Acc where
+  checked : Nat := 0
+  bothFail : Nat := 0
+  memErr : Nat := 0
+  grew : Nat := 0            -- coo: compared states whose buffer has been re-allocated
+  deep : Nat := 0            -- coo: compared states with depth ≥ 2 (multi-level merge reached)
+  bad : List Json := []
+  memSamples : List Json := []
+
+def Acc.addBad (a : Acc) (j : Json) : Acc := if a.bad.length < 4 then { a with bad := a.bad ++ [j] } else { a with bad := a.bad ++ [Json.null] |>.take 5 }
+
+def Acc.json (a : Acc) : Json :=
+  Json.mkObj [("checked", toJson a.checked), ("both_fail", toJson a.bothFail),
+    ("disagreements", Json.arr (a.bad.filter (· != Json.null)).toArray)]
+
+/-! ### coo_append family vs `VecModel.Coo` (C04, C10) -/
+namespace CooTwin
+open VecModel.Coo
+
+/-- the CooArray record as the `numba_build_*_skip_grams` kernels allocate it (arrays of zeros of length `cap`,
+`ind = [0]`, `min` of `2*ceil(log2 cap)` zeros, `depth = [0]`), fields in the order of the regenerated namedtuple -/
+def record (cap : Nat) : R Py.Val := do
+  match Gen.prog.records.find? (·.1 == "CooArray") with
+  | none => throw "twin unavailable: CooArray namedtuple not found in coo_utils.py"
+  | some (_, fields) =>
+    let z := Py.Val.list (List.replicate cap (.int 0))
+    let fs ← fields.mapM fun f =>
+      if f == "row" || f == "col" || f == "val" || f == "key" then pure (f, z)
+      else if f == "ind" || f == "depth" then pure (f, Py.Val.list [.int 0])
+      else if f == "min" then pure (f, Py.Val.list (List.replicate (2 * clog2 cap) (.int 0)))
+      else throw s!"twin unavailable: unexpected CooArray field {f}"
+    pure (.record fs)
+
+structure View where
+  row : List Int
+  col : List Int
+  val : List Int
+  key : List Int
+  mins : List Int
+  ind : Int
+  depth : Int
+
+def fieldInts (fs : List (String × Py.Val)) (f : String) : Option (List Int) :=
+  match fs.find? (·.1 == f) with
+  | some (_, .list vs) => vs.mapM valInt?
+  | _ => none
+
+def view : Py.Val → Option View
+  | .record fs => do
+    let row ← fieldInts fs "row"
+    let col ← fieldInts fs "col"
+    let val ← fieldInts fs "val"
+    let key ← fieldInts fs "key"
+    let mins ← fieldInts fs "min"
+    let ind ← match ← fieldInts fs "ind" with | [i] => some i | _ => none
+    let depth ← match ← fieldInts fs "depth" with | [i] => some i | _ => none
+    pure { row, col, val, key, mins, ind, depth }
+  | _ => none
+
+def View.entries (v : View) : List Entry :=
+  (v.row.zip (v.col.zip (v.val.zip v.key))).map fun (r, c, x, k) => ⟨r, c, x, k⟩
+
+def View.json (v : View) : Json :=
+  Json.mkObj [("row", ints v.row), ("col", ints v.col), ("val", ints v.val), ("key", ints v.key),
+    ("min", ints v.mins), ("ind", toJson v.ind), ("depth", toJson v.depth)]
+
+def modelJson (c : Coo) : Json :=
+  let b := c.buf.toList
+  Json.mkObj [("row", ints (b.map (·.row))), ("col", ints (b.map (·.col))), ("val", ints (b.map (·.val))),
+    ("key", ints (b.map (·.key))), ("min", ints c.mins.toList), ("ind", toJson c.ind), ("depth", toJson c.depth)]
+
+def keyVals (l : List Entry) : List (Int × Int) := (canon l).map fun e => (e.key, e.val)
+
+/-- what the two states disagree on, if anything: live entries as summed (key, value) lists, `ind`, then the raw
+arrays (row/col/val/key over the whole capacity, `min`, `depth`) -/
+def differ (c : Coo) (t : Py.Val) : Option String :=
+  match view t with
+  | none => some "twin state is not a CooArray of integer arrays"
+  | some v =>
+    if v.ind < 0 ∨ v.ind.toNat > v.key.length then some "twin: ind outside the buffer"
+    else if keyVals (live c) ≠ keyVals (v.entries.take v.ind.toNat) then some "live (key, summed value) entries differ"
+    else if (c.ind : Int) ≠ v.ind then some "ind differs"
+    else if c.buf.toList ≠ v.entries ∨ v.row.length ≠ c.buf.size ∨ v.col.length ≠ c.buf.size ∨ v.val.length ≠ c.buf.size then
+      some "raw row/col/val/key arrays differ"
+    else if c.mins.toList ≠ v.mins then some "min array differs"
+    else if (c.depth : Int) ≠ v.depth then some "depth differs"
+    else none
+
+def entryOf (k : Nat) : Entry := ⟨(k : Int), 2 * (k : Int) + 1, (k : Int) + 1, (k : Int)⟩
+
+def twinAppend (P : Py.Prog) (t : Py.Val) (e : Entry) : Except Err Py.Val :=
+  match Py.callFn P "coo_append" [t, .tuple [.int e.row, .int e.col, .int e.val, .int e.key]] with
+  | .ok (r, _) => .ok r                    -- coo_append RETURNS the (possibly re-allocated) buffer
+  | .error e => .error e
+
+/-- a kernel that works in place on its first parameter: the state afterwards is that parameter's final value -/
+def twinInPlace (P : Py.Prog) (fn : String) (t : Py.Val) : Except Err Py.Val :=
+  match Py.callFn P fn [t] with
+  | .ok (_, env) =>
+    match (P.fns.find? (·.name == fn)).bind (·.params.head?) with
+    | some p => match env.find? (·.1 == p) with
+      | some (_, v) => .ok v
+      | none => .error (Py.unsupported s!"{fn}: parameter {p} not bound at exit")
+    | none => .error (Py.unsupported s!"{fn}: no parameter")
+  | .error e => .error e
+
+/-- the tail of every kernel: `coo_sum_duplicates(coo); merge_all_sum_duplicates(coo)` -/
+def twinFinalize (P : Py.Prog) (t : Py.Val) : Except Err Py.Val := do
+  twinInPlace P "merge_all_sum_duplicates" (← twinInPlace P "coo_sum_duplicates" t)
+
+/-- compare one step's outcomes; returns the new accumulator and, when both sides succeeded and agree, the states
+to continue from.  `cmp = false`: memory-safety scope only (twin errors are counted, states are not compared). -/
+def judge (cmp : Bool) (cap0 : Nat) (acc : Acc) (ctx : List (String × Json)) (m : Except Err Coo) (t : Except Err Py.Val) :
+    R (Acc × Option (Coo × Py.Val)) := do
+  guardUnsupported "coo_append family" t
+  let acc := { acc with checked := acc.checked + 1 }
+  let acc := match t with
+    | .error e => if isMemErr e then
+        { acc with memErr := acc.memErr + 1,
+                   memSamples := if acc.memSamples.length < 3 then acc.memSamples ++ [Json.mkObj (ctx ++ [("err", Json.str (toString e))])] else acc.memSamples }
+      else acc
+    | _ => acc
+  match m, t with
+  | .ok c, .ok v =>
+    let acc := { acc with grew := acc.grew + (if c.buf.size != cap0 then 1 else 0), deep := acc.deep + (if c.depth ≥ 2 then 1 else 0) }
+    if !cmp then pure (acc, some (c, v)) else
+    match differ c v with
+    | none => pure (acc, some (c, v))
+    | some w => pure (acc.addBad (Json.mkObj (ctx ++ [("what", Json.str w), ("model", modelJson c),
+        ("twin", match view v with | some vw => vw.json | none => ofVal v)])), none)
+  | .error _, .error _ => pure ({ acc with bothFail := acc.bothFail + 1 }, none)
+  | .ok c, .error e =>
+    pure (if cmp then acc.addBad (Json.mkObj (ctx ++ [("what", Json.str "twin raises, model does not"), ("model", modelJson c), ("twin", Json.str (toString e))])) else acc, none)
+  | .error e, .ok v =>
+    pure (if cmp then acc.addBad (Json.mkObj (ctx ++ [("what", Json.str "model fails, twin does not"), ("model", Json.str (toString e)),
+      ("twin", match view v with | some vw => vw.json | none => ofVal v)])) else acc, none)
+
+/-- every append sequence over keys `0..nkeys-1` up to length `n` (depth-first, shared prefixes run once); after
+every append and after the finalisation of every prefix the two states are compared -/
+partial def dfs (P : Py.Prog) (cmp : Bool) (cap lim nkeys : Nat) : Nat → List Nat → Coo → Py.Val → Acc → R Acc
+  | left, path, c, t, acc => do
+    let ctx := fun (stage : String) (p : List Nat) =>
+      [("cap", toJson cap), ("lim", toJson lim), ("keys", nats p.reverse), ("stage", Json.str stage)]
+    let (acc, _) ← judge cmp cap acc (ctx "finalize" path) (finalize c) (twinFinalize P t)
+    if left == 0 then pure acc else
+    let mut acc := acc
+    for k in List.range nkeys do
+      let e := entryOf k
+      let (acc', next) ← judge cmp cap acc (ctx "append" (k :: path)) (append lim c e) (twinAppend P t e)
+      acc := acc'
+      if let some (c', t') := next then
+        acc ← dfs P cmp cap lim nkeys (left - 1) (k :: path) c' t' acc
+    pure acc
+
+def run (cmp : Bool) (j : Json) : R Acc := do
+  needFns ["coo_append", "coo_sum_duplicates", "merge_sum_duplicates", "merge_all_sum_duplicates", "coo_increase_mem"]
+  let caps ← match getNats j "caps" with | .ok l => pure l | .error _ => do pure [← getNat j "cap"]
+  let lims ← match getNats j "lims" with | .ok l => pure l | .error _ => do pure [← getNat j "lim"]
+  let n ← getNat j "n"
+  let nkeys := (getNat j "nkeys").toOption.getD 2
+  let mut acc : Acc := {}
+  for cap in caps do
+    for lim in lims do
+      -- COO_QUICKSORT_LIMIT reaches the twin the way the verification hook sets it: as a module global
+      let P : Py.Prog := { Gen.prog with globals := ("COO_QUICKSORT_LIMIT", .int lim) :: Gen.prog.globals }
+      match mk cap with
+      | .error _ => continue
+      | .ok c0 => acc ← dfs P cmp cap lim nkeys n [] c0 (← record cap) acc
+  pure acc
+
+/-- `twin.coo_run`: the request of `coo.run` (an operation sequence, checkpoints every `every` ops) executed by the
+regenerated twin; states in the format of `coo.run`, so that the harness can compare the compiled kernels with the
+twin on its sampled operation sequences (validates translator + interpreter on this family) -/
+def stateJson (i : Nat) (v : View) (raw : Bool) : Json :=
+  let liveE := v.entries.take v.ind.toNat
+  let ej := fun (l : List Entry) => Json.arr (l.map fun e => ints [e.key, e.row, e.col, e.val]).toArray
+  Json.mkObj ([("i", toJson i), ("abs", ej (canon liveE)), ("ind", toJson v.ind), ("depth", toJson v.depth),
+    ("cap", toJson v.key.length), ("mcap", toJson v.mins.length)] ++
+    (if raw then [("mins", ints v.mins), ("live", ej liveE)] else []))
+
+def stepTwin (P : Py.Prog) (t : Py.Val) : List Int → R (Except Err Py.Val)
+  | [0, r, c, v, k] => pure (twinAppend P t ⟨r, c, v, k⟩)
+  | [1] => pure (twinInPlace P "coo_sum_duplicates" t)
+  | [2] => pure (twinInPlace P "merge_all_sum_duplicates" t)
+  | [3] => pure (twinFinalize P t)
+  | _ => throw "bad op"
+
+def runOps (j : Json) : R Json := do
+  needFns ["coo_append", "coo_sum_duplicates", "merge_sum_duplicates", "merge_all_sum_duplicates", "coo_increase_mem"]
+  let cap ← getNat j "cap"
+  let lim ← getNat j "lim"
+  let every := (getNat j "every").toOption.getD 1
+  let raw := (getBool j "raw").toOption.getD false
+  let ops ← getIntss j "ops"
+  let P : Py.Prog := { Gen.prog with globals := ("COO_QUICKSORT_LIMIT", .int lim) :: Gen.prog.globals }
+  let mut t ← record cap
+  let mut states : List Json := []
+  let mut i := 0
+  let viewOf := fun (t : Py.Val) => match view t with
+    | some v => pure v
+    | none => throw (α := View) "twin unavailable: state is not a CooArray of integer arrays"
+  for op in ops do
+    let r ← stepTwin P t op
+    guardUnsupported "coo_append family" r
+    match r with
+    | .error e =>
+      return Json.mkObj [("states", Json.arr states.toArray), ("err", Json.str (toString e)), ("err_at", toJson i)]
+    | .ok t' =>
+      t := t'
+      i := i + 1
+      if every ≠ 0 ∧ i % every = 0 then states := states ++ [stateJson i (← viewOf t) raw]
+  if every = 0 ∨ i % every ≠ 0 ∨ i = 0 then states := states ++ [stateJson i (← viewOf t) raw]
+  pure <| Json.mkObj [("states", Json.arr states.toArray), ("err", Json.null), ("err_at", Json.null)]
+
+end CooTwin
+
+/-! ### em_update_matrix vs `VecModel.EM.emUpdateIdx` (C11) -/
+namespace EMTwin
+open VecModel.EM
+
+def sublists : List Nat → List (List Nat)
+  | [] => [[]]
+  | x :: xs => let r := sublists xs; r ++ r.map (x :: ·)
+
+/-- all lists over `alpha` of length ≤ n -/
+def lists (alpha : List α) : Nat → List (List α)
+  | 0 => [[]]
+  | n + 1 => let shorter := lists alpha n
+    shorter ++ (shorter.filter (·.length == n)).flatMap fun l => alpha.map fun a => a :: l
+
+/-- all kernels of the shape of a window -/
+def kernelsFor (alpha : List Rat) : Nat → List (List Rat)
+  | 0 => [[]]
+  | n + 1 => (kernelsFor alpha n).flatMap fun l => alpha.map fun a => a :: l
+
+def ratVal (q : Rat) : Py.Val := if q.den == 1 then .int q.num else .rat q
+def natVal (n : Nat) : Py.Val := .int (n : Int)
+
+def callTwin (indptr indices : List Nat) (data post : List Rat) (n : Nat) (o : Occ) : Except Err (Py.Val × Py.Env) :=
+  Py.callFn Gen.prog "em_update_matrix"
+    [.list (post.map ratVal), .list (indices.map natVal), .list (indptr.map natVal), .list (data.map ratVal),
+     natVal n, natVal o.target, .list (o.windows.map fun w => .list (w.map natVal)),
+     .list (o.kernels.map fun k => .list (k.map ratVal))]
+
+def one (acc : Acc) (indptr indices : List Nat) (data post : List Rat) (n : Nat) (o : Occ) : R Acc := do
+  let m := emUpdateIdx indptr indices data n post o
+  let t := callTwin indptr indices data post n o
+  guardUnsupported "em_update_matrix" t
+  let acc := { acc with checked := acc.checked + 1 }
+  let acc := match t with
+    | .error e => if isMemErr e then
+        { acc with memErr := acc.memErr + 1,
+                   memSamples := if acc.memSamples.length < 3 then acc.memSamples ++ [Json.mkObj [("indptr", nats indptr), ("indices", nats indices),
+                     ("target", toJson o.target), ("windows", Json.arr (o.windows.map nats).toArray), ("kernels", ratss o.kernels),
+                     ("err", Json.str (toString e))]] else acc.memSamples }
+      else acc
+    | _ => acc
+  let same := match m, t with
+    | .ok mv, .ok (.list tv, _) => (tv.mapM valRat?) == some mv
+    | .error _, .error _ => true
+    | _, _ => false
+  let acc := match m, t with | .error _, .error _ => { acc with bothFail := acc.bothFail + 1 } | _, _ => acc
+  if same then pure acc else
+    pure <| acc.addBad (Json.mkObj [("indptr", nats indptr), ("indices", nats indices), ("data", rats data), ("post", rats post),
+      ("n", toJson n), ("target", toJson o.target), ("windows", Json.arr (o.windows.map nats).toArray),
+      ("kernels", ratss o.kernels), ("model", exceptJson rats m), ("twin", twinResJson t)])
+
+/-- scope: `n = 2` tokens, `W ∈ {1, 2}` windows (columns `0..W*n-1`), two-row CSR matrices (one row runs over every
+column subset, the other over {∅, {1}}), both targets, every window over the tokens up to length `wlen`, every
+kernel of the window's shape over {0, 1, 1/2} (second window {0, 1}); data `1, 2, 3 …`, posterior `0, 1, 2 …`.
+Every 5th case is repeated with the last prior value / posterior cell / kernel weight missing (both sides must
+then fail, or not, together). -/
+def run (malformed : Bool) (j : Json) : R Acc := do
+  needFns ["em_update_matrix"]
+  let wlen := (getNat j "wlen").toOption.getD 2
+  let n := 2
+  let mut acc : Acc := {}
+  let mut tick := 0
+  for W in [1, 2] do
+    let cols := List.range (W * n)
+    let wins := lists (List.range n) wlen
+    let winKer : List (List (List Nat) × List (List Rat)) :=
+      if W == 1 then wins.flatMap fun w => (kernelsFor [0, 1, 1/2] w.length).map fun k => ([w], [k])
+      else wins.flatMap fun w1 => (kernelsFor [0, 1, 1/2] w1.length).flatMap fun k1 =>
+        wins.flatMap fun w2 => (kernelsFor [0, 1] w2.length).map fun k2 => ([w1, w2], [k1, k2])
+    for rowA in sublists cols do
+      for rowB in [[], [1]] do
+        for target in [0, 1] do
+          let rows := if target == 0 then [rowA, rowB] else [rowB, rowA]
+          let indices := rows.flatten
+          let indptr := [0, (rows.headD []).length, indices.length]
+          let data : List Rat := (List.range indices.length).map fun k => ((k + 1 : Nat) : Rat)
+          let post : List Rat := (List.range indices.length).map fun k => ((k : Nat) : Rat)
+          for (ws, ks) in winKer do
+            let o : Occ := { target := target, windows := ws, kernels := ks }
+            acc ← one acc indptr indices data post n o
+            tick := tick + 1
+            if malformed && tick % 5 == 0 then
+              acc ← one acc indptr indices data.dropLast post n o
+              acc ← one acc indptr indices data post.dropLast n o
+              acc ← one acc indptr indices data post n { o with kernels := ks.dropLast ++ [(ks.getLastD []).dropLast] }
+              acc ← one acc (indptr.dropLast) indices data post n o
+  pure acc
+
+end EMTwin
+
+/-! ### lempel_ziv_based_encode / murmurhash vs `VecModel.LZ` (C16) -/
+namespace LZTwin
+open VecModel.LZ
+
+def strOf (s : List Nat) : String := String.ofList (s.map Char.ofNat)
+def codes (s : String) : List Nat := s.toList.map Char.toNat
+
+def dictVal (d : Dict (List Nat)) : Py.Val := .dict (d.map fun kv => (.str (strOf kv.1), .int (kv.2 : Nat)))
+
+def dictOf : Py.Val → Option (Dict (List Nat))
+  | .dict kv => kv.mapM fun p => match p with
+    | (.str k, .int v) => if v ≥ 0 then some (codes k, v.toNat) else none
+    | _ => none
+  | _ => none
+
+def dictJson (d : Dict (List Nat)) : Json := Json.arr (d.map fun kv => Json.arr #[Json.str (strOf kv.1), toJson kv.2]).toArray
+
+def run (j : Json) : R Json := do
+  needFns ["lempel_ziv_based_encode", "identity_hash", "murmurhash"]
+  let n := (getNat j "n").toOption.getD 7
+  let mlen := (getNat j "mlen").toOption.getD 6
+  let mut acc : Acc := {}
+  let mut nLz := 0
+  let mut nMur := 0
+  for s in EMTwin.lists [97, 98] n do
+    for cap in [1, 2, 3, 100] do
+      for base in ([[], [([97], 1), ([98], 1)]] : List (Dict (List Nat))) do
+        nLz := nLz + 1
+        let m := encode (κ := List Nat) id cap base s
+        let t := Py.callFn Gen.prog "lempel_ziv_based_encode" [.str (strOf s), dictVal base, .str "<fn identity_hash>", .int (cap : Nat)]
+        guardUnsupported "lempel_ziv_based_encode" t
+        acc := { acc with checked := acc.checked + 1 }
+        let same := match t with
+          | .ok (v, _) => dictOf v == some m
+          | .error _ => false
+        if !same then
+          acc := acc.addBad (Json.mkObj [("fn", Json.str "lempel_ziv_based_encode"), ("string", Json.str (strOf s)), ("max_size", toJson cap),
+            ("base", dictJson base), ("model", dictJson m), ("twin", twinResJson t)])
+  for key in EMTwin.lists [0, 97, 255] mlen do
+    for seed in [0, 7, 2147483646] do
+      nMur := nMur + 1
+      let m := murmur key seed
+      let t := Py.callFn Gen.prog "murmurhash" [.list (key.map fun (k : Nat) => Py.Val.int k), .int (seed : Nat)]
+      guardUnsupported "murmurhash" t
+      acc := { acc with checked := acc.checked + 1 }
+      let same := match t with
+        | .ok (v, _) => valInt? v == some (m : Int)
+        | .error _ => false
+      if !same then
+        acc := acc.addBad (Json.mkObj [("fn", Json.str "murmurhash"), ("key", nats key), ("seed", toJson seed),
+          ("model", toJson m), ("twin", twinResJson t)])
+  pure <| Json.mkObj [("checked", toJson acc.checked), ("lz_cases", toJson nLz), ("murmur_cases", toJson nMur),
+    ("disagreements", Json.arr (acc.bad.filter (· != Json.null)).toArray)]
+
+end LZTwin
+
+/-! ### contract_and_count_pairs (encoding part) and bpe_encode vs `VecModel.BPE` (C09) -/
+namespace BPETwin
+
+def run (j : Json) : R Json := do
+  needFns ["contract_pair", "contract_and_count_pairs", "bpe_encode"]
+  let n := (getNat j "n").toOption.getD 5
+  let mut acc : Acc := {}
+  let mut nCc := 0
+  let mut nEnc := 0
+  let pairs : List (Int × Int) := [(1, 1), (1, 2), (2, 1), (2, 2)]
+  let pairVal := fun (p : Int × Int) => Py.Val.tuple [.int p.1, .int p.2]
+  let countDicts : List Py.Val := [.dict [], .dict [(pairVal (1, 2), .int 3), (pairVal (2, 1), .int 1), (pairVal (3, 9), .int 1)]]
+  for a in allLists [1, 2, 3] n do
+    for p in pairs do
+      for pc in countDicts do
+        nCc := nCc + 1
+        let m := BPE.contractPairIdx a p 9
+        let t := Py.callFn Gen.prog "contract_and_count_pairs" [.list (a.map .int), pairVal p, pc, .int 9]
+        guardUnsupported "contract_and_count_pairs" t
+        acc := { acc with checked := acc.checked + 1 }
+        let same := match m, t with
+          | .ok mv, .ok (.tuple [.list tv, .dict _], _) => tv == mv.map Py.Val.int && mv == BPE.contract p 9 a
+          | .error _, .error _ => true
+          | _, _ => false
+        if !same then
+          acc := acc.addBad (Json.mkObj [("fn", Json.str "contract_and_count_pairs"), ("a", ints a), ("p", ints [p.1, p.2]),
+            ("pair_counts", ofVal pc), ("model", exceptJson ints m), ("twin", twinResJson t)])
+  -- bpe_encode: strings over {a, b, z} (z = 122 > max_char_code = 98 is clipped to 0), well-formed merge lists
+  let mcc : Int := 98
+  let codeLists : List (List (Int × Int)) :=
+    [[], [(97, 98)], [(97, 98), (99, 97)], [(97, 97), (99, 99)], [(98, 98), (97, 99), (100, 100)], [(0, 97), (97, 0)]]
+  for s in allLists [97, 98, 122] n do
+    for cl in codeLists do
+      nEnc := nEnc + 1
+      let mi := BPE.encodeIdx cl mcc s
+      let mf := BPE.encode cl mcc s
+      let str := String.ofList (s.map fun c => Char.ofNat c.toNat)
+      let t := Py.callFn Gen.prog "bpe_encode" [.str str, .list (cl.map pairVal), .int mcc]
+      guardUnsupported "bpe_encode" t
+      acc := { acc with checked := acc.checked + 1 }
+      let same := match mi, t with
+        | .ok mv, .ok (.list tv, _) => tv == mv.map Py.Val.int && mv == mf
+        | .error _, .error _ => true
+        | _, _ => false
+      if !same then
+        acc := acc.addBad (Json.mkObj [("fn", Json.str "bpe_encode"), ("chars", Json.str str), ("code_list", pairsJson cl),
+          ("max_char_code", toJson mcc), ("model", exceptJson ints mi), ("model_fun", ints mf), ("twin", twinResJson t)])
+  pure <| Json.mkObj [("checked", toJson acc.checked), ("contract_and_count_cases", toJson nCc), ("bpe_encode_cases", toJson nEnc),
+    ("disagreements", Json.arr (acc.bad.filter (· != Json.null)).toArray)]
+
+end BPETwin
+
+/-! ### sum_coo_entries vs `VecModel.Skipgram.sumCooEntries` (C06) -/
+namespace SumCooTwin
+open VecModel.Skipgram
+
+def tripleVal (t : Triple) : Py.Val := .tuple [.int (t.1 : Nat), .int (t.2.1 : Nat), EMTwin.ratVal t.2.2]
+
+def tripleOf : Py.Val → Option Triple
+  | .tuple [h, t, w] => do
+    let h ← valInt? h
+    let t ← valInt? t
+    let w ← valRat? w
+    if h < 0 ∨ t < 0 then none else some (h.toNat, t.toNat, w)
+  | _ => none
+
+def tripleJson (t : Triple) : Json := Json.arr #[toJson t.1, toJson t.2.1, ratJson t.2.2]
+
+def run (j : Json) : R Json := do
+  needFns ["sum_coo_entries"]
+  let n := (getNat j "n").toOption.getD 4
+  let alpha : List Triple := [0, 1].flatMap fun h => [0, 1].flatMap fun t => ([1, 1/2] : List Rat).map fun w => (h, t, w)
+  let mut acc : Acc := {}
+  for seq in EMTwin.lists alpha n do
+    let m := sumCooEntries seq
+    let t := Py.callFn Gen.prog "sum_coo_entries" [.list (seq.map tripleVal)]
+    guardUnsupported "sum_coo_entries" t
+    acc := { acc with checked := acc.checked + 1 }
+    let same := match m, t with
+      | .ok mv, .ok (.list tv, _) => tv.mapM tripleOf == some mv
+      | .error _, .error _ => true
+      | _, _ => false
+    if let (.error _, .error _) := (m, t) then acc := { acc with bothFail := acc.bothFail + 1 }
+    if !same then
+      acc := acc.addBad (Json.mkObj [("seq", Json.arr (seq.map tripleJson).toArray),
+        ("model", exceptJson (fun l => Json.arr (l.map tripleJson).toArray) m), ("twin", twinResJson t)])
+  pure acc.json
+
+end SumCooTwin
+
+/-! ### arr_union / arr_intersect (→ arr_unique) vs `VecModel.Dist.arrUnion` / `arrIntersect` (C18) -/
+namespace ArrTwin
+
+def run (j : Json) : R Json := do
+  needFns ["arr_unique", "arr_union", "arr_intersect"]
+  let n := (getNat j "n").toOption.getD 3
+  let k := (getNat j "k").toOption.getD 3
+  let ls := EMTwin.lists (List.range k) n          -- unsorted lists with duplicates included
+  let mut acc : Acc := {}
+  for a in ls do
+    for b in ls do
+      for (fn, model) in [("arr_union", Dist.arrUnion), ("arr_intersect", Dist.arrIntersect)] do
+        let m := model a b
+        let t := Py.callFn Gen.prog fn [.list (a.map EMTwin.natVal), .list (b.map EMTwin.natVal)]
+        guardUnsupported fn t
+        acc := { acc with checked := acc.checked + 1 }
+        let same := match t with
+          | .ok (.list tv, _) => tv.mapM valInt? == some (m.map fun (x : Nat) => (x : Int))
+          | _ => false
+        if !same then
+          acc := acc.addBad (Json.mkObj [("fn", Json.str fn), ("ar1", nats a), ("ar2", nats b), ("model", nats m), ("twin", twinResJson t)])
+  pure acc.json
+
+end ArrTwin
+
 def handle (op : String) (j : Json) : Option (R Json) :=
   match op with
   | "twin.info" => some do
@@ -119,6 +637,7 @@ def handle (op : String) (j : Json) : Option (R Json) :=
     -- run a regenerated kernel over an exhaustive small scope under Python semantics with checked
     -- accesses: counts results and errors (IndexError = oob, UnboundLocalError = unbound)
     let fn ← getStr j "fn"
+    needFns [fn]
     let gens ← j.getObjValAs? (Array Json) "args"
     let P ← withGlobals j
     let argLists ← gens.toList.mapM genArg
@@ -148,6 +667,7 @@ def handle (op : String) (j : Json) : Option (R Json) :=
     -- regenerated sparse_sum / sparse_diff / sparse_mul vs the hand model (Dist.sparseSum …), every pair of
     -- sorted duplicate-free index lists over {0..k-1} with data from a small alphabet
     let k ← getNat j "k"
+    needFns ["sparse_sum", "sparse_diff", "sparse_mul", "arr_union", "arr_intersect", "arr_unique"]
     let alpha : List Py.Val := (List.range k).map fun i => Py.Val.int (i : Nat)
     let subs := (alpha.foldr (fun x acc => acc ++ acc.map (x :: ·)) [[]])
     let natOf : Py.Val → Nat := fun v => match v with | .int i => i.toNat | _ => 0
@@ -177,6 +697,7 @@ def handle (op : String) (j : Json) : Option (R Json) :=
     pure <| Json.mkObj [("checked", toJson checked), ("disagreements", Json.arr bad.toArray)]
   | "twin.ngrams_exhaustive" => some do
     let n ← getNat j "n"
+    needFns ["ngrams_of"]
     let mut checked := 0
     let mut bad : List Json := []
     for s in allLists [1, 2] n do
@@ -194,6 +715,7 @@ def handle (op : String) (j : Json) : Option (R Json) :=
     pure <| Json.mkObj [("checked", toJson checked), ("disagreements", Json.arr bad.toArray)]
   | "twin.window_exhaustive" => some do
     let n ← getNat j "n"
+    needFns ["window_at_index"]
     let mut checked := 0
     let mut bad : List Json := []
     for s in allLists [1, 2] n do
@@ -213,6 +735,7 @@ def handle (op : String) (j : Json) : Option (R Json) :=
   | "twin.bpe_exhaustive" => some do
     -- regenerated contract_pair vs hand model, every array over {1,2,3} up to length n, pairs over {1,2}
     let n ← getNat j "n"
+    needFns ["contract_pair"]
     let arrays := allLists [1, 2, 3] n
     let pairs : List (Int × Int) := [(1, 1), (1, 2), (2, 1), (2, 2)]
     let mut checked := 0
@@ -232,6 +755,28 @@ def handle (op : String) (j : Json) : Option (R Json) :=
             ("model", exceptJson ints model),
             ("twin", match twin with | .ok (v, _) => ofVal v | .error e => Json.str (toString e))]]
     pure <| Json.mkObj [("checked", toJson checked), ("disagreements", Json.arr bad.toArray)]
+  | "twin.coo_exhaustive" => some do
+    -- regenerated coo_append / coo_sum_duplicates / merge_* / coo_increase_mem vs the index-level model Coo.*:
+    -- every append sequence up to length n over nkeys cells, every (cap, lim); compared after every append and
+    -- after the finalisation of every prefix
+    let acc ← CooTwin.run true j
+    pure <| acc.json.mergeObj (Json.mkObj [("grown_states", toJson acc.grew), ("multi_level_states", toJson acc.deep)])
+  | "twin.coo_run" => some (CooTwin.runOps j)
+  | "twin.coo_scope" => some do
+    -- the same sequences, twin only: IndexError / UnboundLocalError under checked Python semantics (C10)
+    let acc ← CooTwin.run false j
+    pure <| Json.mkObj [("cases", toJson acc.checked), ("fn", Json.str "coo_append"), ("memory_errors", toJson acc.memErr),
+      ("memory_error_samples", Json.arr acc.memSamples.toArray)]
+  | "twin.em_exhaustive" => some do pure (← EMTwin.run true j).json
+  | "twin.em_scope" => some do
+    -- valid CSR inputs only, twin only: IndexError / UnboundLocalError under checked Python semantics (C10)
+    let acc ← EMTwin.run false j
+    pure <| Json.mkObj [("cases", toJson acc.checked), ("fn", Json.str "em_update_matrix"), ("memory_errors", toJson acc.memErr),
+      ("memory_error_samples", Json.arr acc.memSamples.toArray)]
+  | "twin.lz_exhaustive" => some (LZTwin.run j)
+  | "twin.bpe_encode_exhaustive" => some (BPETwin.run j)
+  | "twin.sumcoo_exhaustive" => some (SumCooTwin.run j)
+  | "twin.arr_exhaustive" => some (ArrTwin.run j)
   | _ => none
 
 end Driver.Twin
